@@ -10,6 +10,12 @@ Python on ASCII text (Python's `isdigit/isalpha/strip` are Unicode-aware). The r
 one generated from the source on every run (`Registry.registry`); builtin bodies are an arbitrary
 parameter `apply`.
 
+Runtime parameters. `maxIntDigits` = 4300 is CPython's default limit on `int(str)`: a longer integer
+literal makes `int()` raise `ValueError`, which the repaired `QInteger.parse` turns into a
+`QueryParseException` (`parseIntTok`); the theorems below cover that branch. The interpreter's
+recursion limit is not modelled (open finding `interpreter-recursion-limit`, text nested more than
+150 brackets deep).
+
 Termination. Every model function is a total Lean function: the scanners recurse structurally on
 the text; the mutually recursive `parse` methods (`parseTok/parseArgs/parseList/parseDict`)
 recurse structurally on a fuel counter that `parse(line)` sets to `2·|line|+3`. Running out of
